@@ -43,25 +43,41 @@ Definition dec_tsref (s : sexp) : option tsref :=
   match s with L [A 0; A t; A r] => Some (TsPath t r) | L [A 1; A t; A r] => Some (TsTypes t r) | _ => None end.
 Definition dec_extras (s : sexp) : option extras :=
   match s with
-  | L [se; refs; jx; jt; jd; hd] =>
+  | L (se :: refs :: jx :: jt :: jd :: hd :: rest) =>
+      (* three more fields with a Resolver: default JSX source, default JSX types source, resolve_types *)
+      do rs <- match rest with
+               | [] => Some (None, None, RtNone)
+               | [dj; djt; rt] =>
+                   do dj' <- as_option as_atom dj; do djt' <- as_option as_atom djt;
+                   do rt' <- match rt with
+                             | L [] => Some RtNone
+                             | L [A 0; A e] => Some (RtErr e)
+                             | L [A 1; A t] => Some (RtOk t)
+                             | _ => None
+                             end;
+                   Some (dj', djt', rt')
+               | _ => None
+               end;
       do se' <- as_option (as_pair as_atom as_atom) se;
       do refs' <- as_list_of dec_tsref refs;
       do jx' <- as_option (as_pair as_atom as_atom) jx;
       do jt' <- as_option (as_pair as_atom as_atom) jt;
       do jd' <- as_list_of (as_pair as_atom as_atom) jd;
       do hd' <- as_option as_atom hd;
-      Some {| ex_self := se'; ex_refs := refs'; ex_jsx := jx'; ex_jsx_types := jt'; ex_jsdoc := jd'; ex_header := hd' |}
+      Some {| ex_self := se'; ex_refs := refs'; ex_jsx := jx'; ex_jsx_types := jt'; ex_jsdoc := jd'; ex_header := hd';
+              ex_def_jsx := fst (fst rs); ex_def_jsx_types := snd (fst rs); ex_res_types := snd rs |}
   | _ => None
   end.
 Definition enc_tdep (t : tdep) : sexp := of_option (fun p => L [A (fst p); enc_dres (snd p)]) t.
 
 Definition run_decl_full (s : sexp) : sexp :=
   match s with
-  | L [A _; o; L [jsx; A zr]; L [ex; ty]; xs; ds] =>
+  | L [A _; o; L (jsx :: A zr :: selft); L [ex; ty]; xs; ds] =>
       match dec_dopts o, as_bool jsx, as_list_of (as_pair as_atom dec_rout) ex, as_list_of (as_pair as_atom dec_rout) ty,
             dec_extras xs, as_list_of dec_desc ds with
       | Some o', Some j, Some ex', Some ty', Some xs', Some ds' =>
-          let r := declared_full {| rt_exec := ex'; rt_types := ty' |} {| fo_base := o'; fo_jsx := j; fo_zero_range := zr |} xs' ds' in
+          let r := declared_full {| rt_exec := ex'; rt_types := ty' |} {| fo_base := o'; fo_jsx := j; fo_zero_range := zr;
+                                                                                  fo_self_text := match selft with [A t] => t | _ => 0 end |} xs' ds' in
           L [L [enc_tdep (fst r); L (map enc_dacc (snd r))]]
       | _, _, _, _, _, _ => decode_error
       end
